@@ -62,6 +62,14 @@ def run_pair(ctx, sc, rnd, mode='reduce'):
     return on, off, o1, o2, hc.hits
 
 
+def sc_bug0(sc):
+    return sc.get('bug0', 0)
+
+
+def sc_extra0(sc):
+    return sc.get('extra0', 0)
+
+
 def oracle(ctx, on, off, o1, o2, mode='reduce'):
     if o1.diverged or o2.diverged:
         return
@@ -69,8 +77,16 @@ def oracle(ctx, on, off, o1, o2, mode='reduce'):
         clean = lambda o: o.code == 0 and not any(x.startswith('cvise_bug') or x.startswith('cvise_extra') for x in o.after)
         fin = lambda o: o.final
     else:
-        clean = lambda o: all(p['code'] == 0 and p['bug'] == 0 and p['extra'] == 0 for p in o.passes)
-        fin = lambda o: o.passes[-1]['disk']
+        # pass by pass: the first point where the files differ while both runs still respect the contract
+        for p1, p2 in zip(o1.passes, o2.passes):
+            if not all(p['code'] == 0 and p['bug'] == sc_bug0(on) and p['extra'] == sc_extra0(on) for p in (p1, p2)):
+                return
+            d1 = [p1['disk'][o1.order.index(n)] for n in o1.names]
+            d2 = [p2['disk'][o2.order.index(n)] for n in o2.names]
+            if d1 != d2:
+                ctx.violation('cache-changes-result', f'after {p1["pass_"]}: cache on gives {d1}, --no-cache gives {d2}', {'on': on, 'off': off, 'mode': mode})
+                return
+        return
     if not (clean(o1) and clean(o2)):
         return   # a contract breach (unchanged OK etc.) — transparency is only claimed under the contract
     f1 = [fin(o1)[o1.order.index(n)] for n in o1.names]
